@@ -97,6 +97,15 @@ def validate_batches(chk, batches, label):
     return rejects, ill
 
 
+_uniq = [0]
+
+
+def subdir(work, name):
+    """A fresh directory per worker batch (libraries are never shared between batches)."""
+    _uniq[0] += 1
+    return os.path.join(work, "%s%d" % (name, _uniq[0]))
+
+
 def split(seq, size):
     return [seq[i:i + size] for i in range(0, len(seq), size)]
 
@@ -110,6 +119,11 @@ def key_of(clause):
     return key
 
 
+def _size(example):
+    sc = example["scenario"]
+    return (len(sc["s"]) if "s" in sc else 0, len(json.dumps(sc)))
+
+
 class Tally:
     """One violation per key, with a count and a few examples (thousands of strings share a class)."""
 
@@ -120,12 +134,13 @@ class Tally:
         k = json.dumps(key, sort_keys=True)
         g = self.groups.setdefault(k, {"key": key, "count": 0, "examples": []})
         g["count"] += 1
-        if len(g["examples"]) < 8:
-            g["examples"].append({"scenario": scenario, "clause": clause, "detail": detail[:1500]})
+        g["examples"].append({"scenario": scenario, "clause": clause, "detail": detail[:1500]})
+        if len(g["examples"]) > 64:        # keep the shortest
+            g["examples"] = sorted(g["examples"], key=_size)[:8]
 
     def report(self, chk):
         for g in sorted(self.groups.values(), key=lambda g: json.dumps(g["key"], sort_keys=True)):
-            ex = sorted(g["examples"], key=lambda e: len(json.dumps(e["scenario"])))
+            ex = sorted(g["examples"], key=_size)[:8]
             chk.violation(g["key"], {"scenario": ex[0]["scenario"], "count": g["count"], "examples": ex})
 
 
@@ -139,7 +154,7 @@ def run_conv(chk, tally, cases, work, label="fragments"):
     if not items:
         return
     reqs = [{"mode": "conv", "items": part} for part in split(items, max(1, -(-len(items) // vlib.NCPU)))]
-    outs = vlib.run_workers_parallel(WORKER, reqs, os.path.join(work, "conv"), timeout=900)
+    outs = vlib.run_workers_parallel(WORKER, reqs, subdir(work, "conv"), timeout=900)
     events = sorted((e for o in outs for e in o), key=lambda e: e["tid"])
     if len(events) != len(items):
         raise vlib.Machinery("conv worker returned %d events for %d items" % (len(events), len(items)))
@@ -162,7 +177,7 @@ def run_conv(chk, tally, cases, work, label="fragments"):
 def run_sources(chk, tally, models, work, cut=True, depth=0):
     groups = [models[i::vlib.NCPU] for i in range(vlib.NCPU)]
     reqs = [{"mode": "sources", "models": g, "cut": cut} for g in groups if g]
-    outs = vlib.run_workers_parallel(WORKER, reqs, os.path.join(work, "src%d" % depth), timeout=3000)
+    outs = vlib.run_workers_parallel(WORKER, reqs, subdir(work, "src"), timeout=3000)
     heads, uses, chunks = [], [], {}
     for o in outs:
         for e in o:
@@ -192,7 +207,7 @@ def run_sources(chk, tally, models, work, cut=True, depth=0):
     batches, cur, n = [], [], 0
     for key in sorted(chunks):
         c = chunks[key]
-        evs = [{"tid": key, "ev": "Begin", "model": c["model"], "first_line": c["first_line"]}]
+        evs = [{"tid": key, "ev": "Begin", "model": c["model"], "first_line": c["first_line"], "n": len(c["rows"])}]
         for k, (r, d, s, q) in enumerate(c["rows"]):
             evs.append({"tid": key, "ev": "Line", "k": k, "r": r, "d": d, "s": s, "q": q})
         evs.append({"tid": key, "ev": "End"})
@@ -207,19 +222,27 @@ def run_sources(chk, tally, models, work, cut=True, depth=0):
     users = {}
     for u in uses:
         users.setdefault(u["key"], []).append(u["model"])
+    # A cut that fell inside a comment (End rejected): every later piece of the models using that
+    # piece was read from the wrong lexer state, so those models are fed again whole and what the
+    # pieces said about them is discarded (a piece shared with another model stays valid there).
     redo = set()
     for ev, clause, detail in rejects:
         if clause == "chunk-not-closed" and cut:
-            redo.update(users[ev["tid"]])     # a cut fell inside a comment: feed those models whole
+            redo.update(users[ev["tid"]])
+    for ev, clause, detail in rejects:
+        if clause == "chunk-not-closed" and cut:
             continue
         if ev["ev"] == "Heads":
             tally.add(dict(key_of(clause), input="builtin-source"),
                       {"kind": "sources", "models": [ev["model"]]}, clause, detail)
             continue
+        valid_for = sorted(set(users[ev["tid"]]) - redo)
+        if not valid_for:
+            continue
         c = chunks[ev["tid"]]
         line = c["first_line"] + ev.get("k", 0)
         tally.add(dict(key_of(clause), input="builtin-source"),
-                  {"kind": "sources", "models": sorted(set(users[ev["tid"]]))[:3], "model": c["model"],
+                  {"kind": "sources", "models": valid_for[:3], "piece_of": c["model"],
                    "line": line, "text": {k: ev.get(k) for k in ("r", "d", "s", "q")}}, clause, detail)
     if redo:
         chk.notes.setdefault("models_fed_uncut", []).extend(sorted(redo))
@@ -237,6 +260,20 @@ def run_sources(chk, tally, models, work, cut=True, depth=0):
                          "pieces": sum(1 for u in uses if u["model"] == h["model"])})
 
 
+def guarded(chk, tally, part, fn, *args):
+    """Run a part that executes compiled kernels.  A worker killed by a signal (SIGSEGV, SIGABRT)
+    while doing nothing but loading and calling the libraries built from the converted source is
+    a failure of "the resulting kernels build and agree", not of the machinery."""
+    try:
+        return fn(chk, tally, *args)
+    except vlib.Machinery as ex:
+        m = re.search(r"worker \S+ failed rc=(-\d+)", str(ex))
+        if not m:
+            raise
+        tally.add({"clause": "kernel-crash", "part": part}, {"kind": part, "args": [a for a in args if isinstance(a, list)][:2]},
+                  "kernel-crash/" + part, "worker process killed by signal %s: %s" % (m.group(1)[1:], str(ex)[-800:]))
+
+
 # ------------------------------------------------------------------ (c) precision requests
 def run_dtype(chk, tally, models, spellings, work):
     reqs, tid = [], 1
@@ -245,7 +282,7 @@ def run_dtype(chk, tally, models, spellings, work):
         for part in split(spellings, per):
             reqs.append({"mode": "dtype", "model": m, "spellings": part, "first_tid": tid})
             tid += len(part)
-    outs = vlib.run_workers_parallel(WORKER, reqs, os.path.join(work, "dtype"), timeout=3000)
+    outs = vlib.run_workers_parallel(WORKER, reqs, subdir(work, "dtype"), timeout=3000)
     events = sorted((e for o in outs for e in o), key=lambda e: e["tid"])
     if len(events) != len(models) * len(spellings):
         raise vlib.Machinery("dtype worker returned %d events" % len(events))
@@ -267,7 +304,7 @@ def run_dtype(chk, tally, models, spellings, work):
 def run_agree(chk, tally, models, work):
     groups = [models[i::vlib.NCPU] for i in range(vlib.NCPU)]
     reqs = [{"mode": "agree", "models": g, "first_tid": 10000 * k} for k, g in enumerate(groups) if g]
-    outs = vlib.run_workers_parallel(WORKER, reqs, os.path.join(work, "agree"), timeout=3000)
+    outs = vlib.run_workers_parallel(WORKER, reqs, subdir(work, "agree"), timeout=3000)
     events = sorted((e for o in outs for e in o), key=lambda e: e["tid"])
     if set(e["model"] for e in events) != set(models):
         raise vlib.Machinery("agree worker did not report every model")
@@ -287,7 +324,7 @@ def run_agree(chk, tally, models, work):
 
 # ------------------------------------------------------------------ driver
 QUICK_SOURCES = ["sphere", "cylinder", "core_shell_parallelepiped"]
-DTYPE_MODELS = ["sphere", "cylinder", "power_law"]
+DTYPE_MODELS = ["sphere", "cylinder", "guinier"]
 
 
 def run(chk, args):
@@ -299,15 +336,21 @@ def run(chk, args):
             with open(args.replay) as f:
                 rp = json.load(f)
             exs = rp["detail"].get("examples") or [rp["detail"]]
-            for sc in [e["scenario"] for e in exs]:
-                if sc["kind"] == "conv":
-                    run_conv(chk, tally, {sc["s"]: {"e32": None, "family": "replay"}}, work, "replay")
-                elif sc["kind"] == "sources":
+            scs = [e["scenario"] for e in exs]
+            conv = {sc["s"]: {"family": "replay"} for sc in scs if sc["kind"] == "conv"}
+            if conv:
+                run_conv(chk, tally, conv, work, "replay")
+            for sc in scs:
+                if sc["kind"] == "sources":
                     run_sources(chk, tally, sc["models"], work)
-                elif sc["kind"] == "dtype":
-                    run_dtype(chk, tally, [sc["model"]], [sc["spelling"]], work)
+                elif sc["kind"] == "dtype" and "model" in sc:
+                    guarded(chk, tally, "dtype", run_dtype, [sc["model"]], [sc["spelling"]], work)
+                elif sc["kind"] == "agree" and "model" in sc:
+                    guarded(chk, tally, "agree", run_agree, [sc["model"]], work)
                 elif sc["kind"] == "agree":
-                    run_agree(chk, tally, [sc["model"]], work)
+                    guarded(chk, tally, "agree", run_agree, sc["args"][0], work)
+                elif sc["kind"] == "dtype" and "args" in sc:
+                    guarded(chk, tally, "dtype", run_dtype, sc["args"][0], sc["args"][1], work)
             tally.report(chk)
             return
         cases, spellings = design_runs(chk, thorough)
@@ -321,13 +364,13 @@ def run(chk, args):
             rest = [n for n in names if n not in QUICK_SOURCES]
             src_models = [n for n in QUICK_SOURCES if n in names] + rng.sample(rest, min(3, len(rest)))
         run_sources(chk, tally, src_models, work)
-        run_dtype(chk, tally, [m for m in (DTYPE_MODELS if thorough else DTYPE_MODELS[:1]) if m in names],
-                  spellings, work)
+        guarded(chk, tally, "dtype", run_dtype,
+                [m for m in (DTYPE_MODELS if thorough else DTYPE_MODELS[:1]) if m in names], spellings, work)
         if thorough:
             agree_models = names
         else:
             agree_models = sorted(rng.sample(single, min(6, len(single))))
-        run_agree(chk, tally, agree_models, work)
+        guarded(chk, tally, "agree", run_agree, agree_models, work)
         tally.report(chk)
         chk.cov["exhaustive"] = True
         chk.cov["rule"] = (
